@@ -19,8 +19,11 @@ inductive Tok where
   | lp | rp | comma | semi | lb | rb | eq | pct2
   deriving Repr, DecidableEq
 
+/-- characters of names and numbers: PN_CHARS plus PN_CHARS_OTHERS of the PROV-N grammar
+    ("/" | "@" | "~" | "&" | "+" | "*" | "?" | "#" | "$" | "!" | "%" of PERCENT) -/
 def isWordChar (c : Char) : Bool :=
-  c.isAlphanum || c == '_' || c == '-' || c == '.' || c == ':' || c == '/' || c == '+' || c.toNat > 127
+  c.isAlphanum || c == '_' || c == '-' || c == '.' || c == ':' || c == '/' || c == '+' || c.toNat > 127 ||
+  c == '@' || c == '~' || c == '&' || c == '*' || c == '?' || c == '#' || c == '$' || c == '!' || c == '%'
 
 /-- ECHAR ::= '\' [tbnrf\"'] -/
 def unescapeChar (c : Char) : Option Char :=
